@@ -133,6 +133,9 @@ class BatchWorld:
         except self.bb.NonExistentJobGroupError as e:
             self.loop.run_until_idle()
             return Result("http", None, 404, str(e))
+        except self.gdb.CallError as e:
+            self.loop.run_until_idle()
+            return Result("callerror", e.rv, e.rv.get("rc"), e.rv.get("message"))
         except Exception as e:  # SQL errors and others are reported to the caller
             self.loop.run_until_idle()
             import pymysql.err as pe
@@ -263,6 +266,140 @@ WHERE batches.user = %s AND batches.id = %s AND batch_updates.update_id = %s AND
         import batch.driver.main as dm
 
         return self.run(dm.delete_prev_cancelled_job_group_cancellable_resources_records(self.db))
+
+    # ---- the real aiohttp handlers (decorators included) through mocked requests ------------------------------------------
+    def webapp(self):
+        """aiohttp Application holding the front end's real route table; fe.auth._fetch_userdata is replaced by a header-driven
+        fake (X-User: username; 'dev' is a developer; 'inactive' is inactive; no header = anonymous)."""
+        if getattr(self, "_webapp", None) is None:
+            import warnings
+
+            warnings.filterwarnings("ignore", message=".*AppKey.*")
+            fe = self.fe
+
+            async def fake_userdata(request):
+                u = request.headers.get("X-User")
+                if not u:
+                    return None
+                return {"id": 1, "state": "inactive" if u == "inactive" else "active", "username": u, "login_id": u,
+                        "namespace_name": "default", "is_developer": 1 if u == "dev" else 0, "is_service_account": u == "auth",
+                        "hail_credentials_secret_name": f"{u}-gsa-key", "tokens_secret_name": f"{u}-tokens"}
+
+            async def fake_permission(request, permission):
+                return request.headers.get("X-User") in ("dev", "auth")
+
+            fe.auth._fetch_userdata = fake_userdata
+            fe.auth._check_system_permission = fake_permission
+            app = web.Application()
+            for k, v in self.app.items():
+                app[k] = v
+            app.add_routes(fe.routes)
+            self._webapp = app
+        return self._webapp
+
+    async def http_coro(self, method, path, body=None, user="u1", headers=None):
+        """Coroutine running the real handler for (method, path); returns the aiohttp response (or raises web.HTTPException)."""
+        from aiohttp import streams
+        from aiohttp.test_utils import make_mocked_request
+
+        app = self.webapp()
+        data = json.dumps(body).encode() if body is not None else b""
+        proto = type("P", (), {"_reading_paused": False, "transport": None, "resume_reading": lambda self, **k: None,
+                               "pause_reading": lambda self: None})()
+        sr = streams.StreamReader(proto, 2 ** 16, loop=asyncio.get_running_loop())
+        sr.feed_data(data)
+        sr.feed_eof()
+        h = dict(headers or {})
+        if user:
+            h["X-User"] = user
+        req = make_mocked_request(method, path, headers=h, app=app, payload=sr)
+        mi = await app.router.resolve(req)
+        mi.add_app(app)
+        req._match_info = mi
+        return await mi.handler(req)
+
+    def http(self, method, path, body=None, user="u1", headers=None):
+        r = self.run(self.http_coro(method, path, body, user, headers))
+        if r.kind == "ok" and hasattr(r.value, "body") and r.value.body:
+            try:
+                r.json = json.loads(r.value.body)
+            except Exception:
+                r.json = None
+        return r
+
+    # ---- handlers as tasks stepped one database transaction at a time (C09) -----------------------------------------------
+    def start_task(self, coro, name):
+        """Create (but do not run) a task for a handler coroutine. aiomysql.YIELD must be True for fine-grained stepping."""
+        return self.loop.create_task(coro, name=name)
+
+    def _task_handles(self, task):
+        return [h for h in self.loop._ready if not h._cancelled and getattr(h._callback, "__self__", None) is task]
+
+    def _run_others(self, handler_tasks):
+        """Run every ready callback that does not belong to a paused handler task (connection releases, notifications)."""
+        n = 0
+        while True:
+            self.loop._move_due()
+            hs = [h for h in self.loop._ready if not h._cancelled and getattr(h._callback, "__self__", None) not in handler_tasks]
+            if not hs:
+                return
+            for h in hs:
+                self.loop._ready.remove(h)
+                self.loop.run_handle(h)
+            n += 1
+            if n > 10000:
+                raise RuntimeError("background callbacks do not quiesce")
+
+    def step_tx(self, task, handler_tasks, n_tx=1):
+        """Advance `task` until it has finished n_tx more database transactions (python-level commit/rollback) or is done."""
+        target = aiomysql.TX_ENDS + n_tx
+        guard = 0
+        while not task.done() and aiomysql.TX_ENDS < target:
+            hs = self._task_handles(task)
+            if not hs:
+                self._run_others(handler_tasks)
+                hs = self._task_handles(task)
+                if not hs:
+                    if self.loop.advance():
+                        continue
+                    raise RuntimeError(f"handler task {task.get_name()} is blocked")
+            self.loop._ready.remove(hs[0])
+            self.loop.run_handle(hs[0])
+            guard += 1
+            if guard > 100000:
+                raise RuntimeError("handler does not reach a transaction boundary")
+        self._run_others(handler_tasks)
+        return task.done()
+
+    def finish_task(self, task, handler_tasks):
+        while not task.done():
+            self.step_tx(task, handler_tasks, 1000)
+        self._run_others(handler_tasks)
+        return self.task_result(task)
+
+    def task_result(self, task) -> Result:
+        try:
+            v = task.result()
+            r = Result("ok", v)
+            if hasattr(v, "body") and v.body:
+                try:
+                    r.json = json.loads(v.body)
+                except Exception:
+                    r.json = None
+            return r
+        except web.HTTPException as e:
+            return Result("http", None, e.status, e.reason)
+        except self.gdb.CallError as e:
+            return Result("callerror", e.rv, e.rv.get("rc"), e.rv.get("message"))
+        except Exception as e:
+            import pymysql.err as pe
+
+            if isinstance(e, pe.MySQLError):
+                return Result("sqlerror", None, e.args[0] if e.args else None, str(e))
+            if isinstance(e, ValueError) and isinstance(e.__cause__, pe.MySQLError):
+                c = e.__cause__
+                return Result("sqlerror", None, c.args[0] if c.args else None, str(c))
+            raise
 
     # ---- inspection ----------------------------------------------------------------------------------------------------
     def rows(self, table, **eq):
